@@ -192,6 +192,10 @@ type noiseFn struct {
 	scoped   map[string]bool
 	expand   map[string][]aliasTarget
 	loopVars []map[string]bool
+	// closures: parameters of a local function literal being interpreted at one of its call sites -> the arguments
+	bind         map[types.Object]ast.Expr
+	closureDepth int
+	closures     map[types.Object]*ast.FuncLit
 }
 
 // polyish reports whether t (through pointers) is a polynomial-like type worth tracking.
@@ -238,6 +242,9 @@ func (nf *noiseFn) cell(e ast.Expr, st *noiseState, depth int) string {
 		}
 		if o == nil {
 			return ""
+		}
+		if d, ok := nf.bind[o]; ok {
+			return nf.cell(d, st, depth+1)
 		}
 		if d, ok := nf.static[o]; ok {
 			if c := nf.cell(d, st, depth+1); c != "" {
@@ -351,6 +358,45 @@ func (nf *noiseFn) markWritten(st *noiseState, c string, pos token.Pos) {
 func (nf *noiseFn) transferCall(call *ast.CallExpr, st *noiseState) {
 	sel, ok := unparen(call.Fun).(*ast.SelectorExpr)
 	if !ok {
+		// a closure of the function (`sample := func(pol ringqp.Poly) { … }` … `sample(h0)`): its body is interpreted at
+		// the call with the parameters standing for the arguments
+		if id, plain := unparen(call.Fun).(*ast.Ident); plain {
+			if lit := nf.closureOf(id); lit != nil && nf.closureDepth < 2 {
+				saved := map[types.Object]ast.Expr{}
+				i := 0
+				for _, fl := range lit.Type.Params.List {
+					for _, nm := range fl.Names {
+						if o := nf.info.Defs[nm]; o != nil && i < len(call.Args) {
+							if old, had := nf.bind[o]; had {
+								saved[o] = old
+							}
+							if nf.bind == nil {
+								nf.bind = map[types.Object]ast.Expr{}
+							}
+							nf.bind[o] = call.Args[i]
+						}
+						i++
+					}
+				}
+				nf.closureDepth++
+				if r := nf.exec(lit.Body.List, st, nil); r != nil && r != st {
+					*st = *r
+				}
+				nf.closureDepth--
+				for _, fl := range lit.Type.Params.List {
+					for _, nm := range fl.Names {
+						if o := nf.info.Defs[nm]; o != nil {
+							if old, had := saved[o]; had {
+								nf.bind[o] = old
+							} else {
+								delete(nf.bind, o)
+							}
+						}
+					}
+				}
+				return
+			}
+		}
 		// a package-level helper of the module that masks some of its polynomial parameters on every path
 		if _, plain := unparen(call.Fun).(*ast.Ident); plain && nf.sp != nil {
 			if f := calleeFunc(nf.info, call); f != nil && f.Pkg() != nil && strings.HasPrefix(f.Pkg().Path(), core.ModPath) {
@@ -452,6 +498,72 @@ func (nf *noiseFn) transferCall(call *ast.CallExpr, st *noiseState) {
 		nf.setN(st, dst, st.isNoisy(src))
 		nf.markWritten(st, dst, call.Pos())
 	}
+}
+
+// closureOf returns the function literal a local is bound to, when the local is defined once, never assigned again and
+// the literal has no return statement of its own (so that its body is a plain block of the caller).
+func (nf *noiseFn) closureOf(id *ast.Ident) *ast.FuncLit {
+	o, _ := nf.info.Uses[id].(*types.Var)
+	if o == nil || nf.fd == nil || nf.fd.Body == nil {
+		return nil
+	}
+	if nf.closures == nil {
+		nf.closures = map[types.Object]*ast.FuncLit{}
+		assigned := map[types.Object]int{}
+		ast.Inspect(nf.fd.Body, func(x ast.Node) bool {
+			switch v := x.(type) {
+			case *ast.AssignStmt:
+				for i, l := range v.Lhs {
+					lid, ok := unparen(l).(*ast.Ident)
+					if !ok {
+						continue
+					}
+					lo := nf.info.Defs[lid]
+					if lo == nil {
+						lo = nf.info.Uses[lid]
+					}
+					if lo == nil {
+						continue
+					}
+					if _, isFn := lo.Type().Underlying().(*types.Signature); !isFn {
+						continue
+					}
+					assigned[lo]++
+					if len(v.Rhs) == len(v.Lhs) {
+						if lit, ok := unparen(v.Rhs[i]).(*ast.FuncLit); ok {
+							nf.closures[lo] = lit
+						}
+					}
+				}
+			case *ast.ValueSpec:
+				for i, nm := range v.Names {
+					if lo := nf.info.Defs[nm]; lo != nil && i < len(v.Values) {
+						if lit, ok := unparen(v.Values[i]).(*ast.FuncLit); ok {
+							assigned[lo]++
+							nf.closures[lo] = lit
+						}
+					}
+				}
+			}
+			return true
+		})
+		for lo, lit := range nf.closures {
+			plain := assigned[lo] == 1
+			ast.Inspect(lit.Body, func(x ast.Node) bool {
+				switch x.(type) {
+				case *ast.FuncLit:
+					return false
+				case *ast.ReturnStmt:
+					plain = false
+				}
+				return true
+			})
+			if !plain {
+				delete(nf.closures, lo)
+			}
+		}
+	}
+	return nf.closures[o]
 }
 
 func (nf *noiseFn) applySampler(st *noiseState, c string, k samplerKind, name string, pos token.Pos) {
@@ -568,6 +680,29 @@ func (nf *noiseFn) execStmt(s ast.Stmt, st *noiseState, scopeDecls map[types.Obj
 		nf.loopVars = nf.loopVars[:len(nf.loopVars)-1]
 		return joinNoise(st, body)
 	case *ast.RangeStmt:
+		// a loop over a literal list of polynomials (`for _, c := range [2]ring.Poly{c0, c1}`) is its body once per
+		// element, the value variable standing for the element
+		if cl, ok := unparen(x.X).(*ast.CompositeLit); ok && len(cl.Elts) > 0 && len(cl.Elts) <= 8 {
+			if vid, ok := x.Value.(*ast.Ident); ok && vid.Name != "_" {
+				if vo := nf.info.Defs[vid]; vo != nil && polyish(vo.Type()) {
+					if nf.bind == nil {
+						nf.bind = map[types.Object]ast.Expr{}
+					}
+					for _, el := range cl.Elts {
+						if kv, ok := el.(*ast.KeyValueExpr); ok {
+							el = kv.Value
+						}
+						nf.bind[vo] = el
+						r := nf.execBlock(x.Body.List, st, x.Body.End(), "block end")
+						if r != nil {
+							st = r
+						}
+					}
+					delete(nf.bind, vo)
+					return st
+				}
+			}
+		}
 		lv := map[string]bool{}
 		for _, e := range []ast.Expr{x.Key, x.Value} {
 			if id, ok := e.(*ast.Ident); ok && id.Name != "_" {
